@@ -10,7 +10,7 @@ namespace Model
 namespace Proto
 namespace Surveyor
 
-def slack : Nat := 400
+def slack : Nat := 250
 
 structure Survey where
   id : Nat
